@@ -1942,6 +1942,59 @@ def _m_checked_add(eng, st, callee, args, ev):
     return NotImplemented
 
 
+def _const_int_model(fn, ret=None):
+    """pure integer method, folded when the receiver and all arguments are constants (exact machine semantics)"""
+    def model(eng, st, callee, args, ev):
+        ty = callee.get("impl_self")
+        if ty not in INT_BITS or not all(is_c(a) for a in args):
+            return NotImplemented
+        bits = INT_BITS[ty]
+        signed = ty.startswith("i")
+        vals = [(sval(a) if (signed and i == 0) or (a[2] == ty and signed) else a[1]) for i, a in enumerate(args)]
+        try:
+            r = fn(bits, signed, *vals)
+        except Exception:
+            return NotImplemented
+        if r is None:
+            return NotImplemented      # the real function would panic / overflow: leave the call visible
+        rty = ret or ty
+        if rty == "bool":
+            return C(1 if r else 0, "bool")
+        if rty == ty and not signed and not (0 <= r < (1 << bits)):
+            return NotImplemented
+        return C(r, rty)
+    return model
+
+
+def _in_range(bits, signed, v):
+    return (-(1 << (bits - 1)) <= v < (1 << (bits - 1))) if signed else (0 <= v < (1 << bits))
+
+
+_INT_FOLDS = {
+    "div_ceil": (lambda b, s, x, y: None if y == 0 or s else -(-x // y), None),
+    "next_multiple_of": (lambda b, s, x, y: None if y == 0 or s else (-(-x // y)) * y, None),
+    "pow": (lambda b, s, x, y: (x ** y) if y < 4096 and _in_range(b, s, x ** y) else None, None),
+    "min": (lambda b, s, x, y: min(x, y), None),
+    "max": (lambda b, s, x, y: max(x, y), None),
+    "abs_diff": (lambda b, s, x, y: None if s else abs(x - y), None),
+    "saturating_sub": (lambda b, s, x, y: None if s else max(0, x - y), None),
+    "saturating_add": (lambda b, s, x, y: None if s else min((1 << b) - 1, x + y), None),
+    "saturating_mul": (lambda b, s, x, y: None if s else min((1 << b) - 1, x * y), None),
+    "wrapping_add": (lambda b, s, x, y: (x + y) & ((1 << b) - 1), None),
+    "wrapping_sub": (lambda b, s, x, y: (x - y) & ((1 << b) - 1), None),
+    "wrapping_mul": (lambda b, s, x, y: (x * y) & ((1 << b) - 1), None),
+    "count_ones": (lambda b, s, x: bin(x & ((1 << b) - 1)).count("1"), "u32"),
+    "count_zeros": (lambda b, s, x: b - bin(x & ((1 << b) - 1)).count("1"), "u32"),
+    "trailing_zeros": (lambda b, s, x: b if (x & ((1 << b) - 1)) == 0 else ((x & -x).bit_length() - 1), "u32"),
+    "is_power_of_two": (lambda b, s, x: None if s else (x != 0 and (x & (x - 1)) == 0), "bool"),
+    "next_power_of_two": (lambda b, s, x: None if s else (1 if x <= 1 else 1 << (x - 1).bit_length()), None),
+    "ilog2": (lambda b, s, x: None if x <= 0 else x.bit_length() - 1, "u32"),
+    "isqrt": (lambda b, s, x: None if x < 0 else __import__("math").isqrt(x), None),
+    "rem_euclid": (lambda b, s, x, y: None if y == 0 else x % abs(y), None),
+    "div_euclid": (lambda b, s, x, y: None if y == 0 or s else x // y, None),
+}
+
+
 SYN_MODELS = {
     "core::iter::traits::iterator::Iterator::try_for_each": _syn_try_for_each,
 }
@@ -2367,6 +2420,8 @@ for _t in ("f32", "f64"):
 for _t in ("u8", "u16", "u32", "u64", "u128", "usize"):
     MODELS["core::num::<impl %s>::checked_sub" % _t] = _m_checked_sub
 for _t in ("u8", "i8", "u16", "i16", "u32", "i32", "u64", "i64", "u128", "i128", "usize", "isize"):
+    for _n, (_f, _r) in _INT_FOLDS.items():
+        MODELS.setdefault("core::num::<impl %s>::%s" % (_t, _n), _const_int_model(_f, _r))
     MODELS["core::num::<impl %s>::to_le_bytes" % _t] = _m_to_le_bytes
     MODELS["core::num::<impl %s>::to_be_bytes" % _t] = _m_to_be_bytes
     MODELS["core::num::<impl %s>::from_le_bytes" % _t] = _m_from_le_bytes
